@@ -298,6 +298,7 @@ class Gen:
         struct_default = self.draw_struct_default()
         fields = []
         ints = []    # IntSrc usable in expressions (small bounds)
+        wide_ints = []  # 32-bit fields: operands whose sums, differences and products leave 32 bits
         bools = []   # (expr) boolean sources
         enum_fields = []  # (name, EnumDef)
         cur = 0       # static offset so far (None once dynamic)
@@ -414,6 +415,9 @@ class Gen:
                 if t.kind in ("UInt", "Int") and nb <= 2 and cond is None and f.requires is None and not f.skip:
                     lo, hi = scalar_bounds(t)
                     ints.append(IntSrc(D.Ref(f.name), lo, hi, f.name, True))
+                if t.kind in ("UInt", "Int") and nb == 4 and cond is None and f.requires is None and not f.skip:
+                    lo, hi = scalar_bounds(t)
+                    wide_ints.append(IntSrc(D.Ref(f.name), lo, hi, f.name, True))
                 if t.kind == "Enum" and cond is None and not f.skip:
                     enum_fields.append((f.name, self.enum_by_name(t.enum)))
             elif kind == "enum_tag":
@@ -456,6 +460,8 @@ class Gen:
                 fields.append(f)
             elif kind == "dyn_array":
                 srcs = [s for s in ints if s.lo >= 0]
+                if rng.random() < 0.2:
+                    srcs = [s for s in wide_ints if s.lo >= 0] or srcs  # a 32-bit length: start + size leaves 32 bits
                 if not srcs:
                     continue
                 src = rng.choice(srcs)
@@ -546,7 +552,7 @@ class Gen:
         # virtual fields
         if "virtuals" in self.f:
             for _ in range(rng.randint(1, 4)):
-                v = self.virtual_expr(ints, bools, enum_fields)
+                v = self.virtual_expr(ints, bools, enum_fields, wide_ints)
                 if v is None:
                     break
                 expr, lo, hi, is_int = v
@@ -599,9 +605,24 @@ class Gen:
                 return e
         raise KeyError(name)
 
-    def virtual_expr(self, ints, bools, enum_fields):
+    def virtual_expr(self, ints, bools, enum_fields, wide_ints=()):
         rng = self.rng
         small = [s for s in ints if -(1 << 16) <= s.lo and s.hi <= (1 << 16)]
+        if wide_ints and rng.random() < 0.5:
+            # arithmetic whose operands fit 32 bits and whose result does not
+            a = rng.choice(list(wide_ints))
+            b = rng.choice(list(wide_ints) + small + [IntSrc(D.Const(rng.choice([1, 2, 8, 255, 65536])), 0, 0)])
+            if isinstance(b.expr, D.Const):
+                b = IntSrc(b.expr, b.expr.v, b.expr.v)
+            op = rng.choice(["+", "-", "+", "-", "*"])
+            if op == "*":
+                k = rng.choice([2, 3, 8, 256])
+                return D.Bin("*", a.expr, D.Const(k)), min(a.lo * k, a.hi * k), max(a.lo * k, a.hi * k), True
+            if rng.random() < 0.3:
+                a, b = b, a
+            if op == "+":
+                return D.Bin("+", a.expr, b.expr), a.lo + b.lo, a.hi + b.hi, True
+            return D.Bin("-", a.expr, b.expr), a.lo - b.hi, a.hi - b.lo, True
         forms = []
         if small:
             forms += ["arith", "arith", "cmp"]
